@@ -112,7 +112,7 @@ public:
     }
     usize oldSize = bufferEnd - bufferStart;
     usize requiredCapacity = size + oldSize;
-    if(buffer && _capacity >= requiredCapacity)
+    if(buffer && _capacity >= requiredCapacity && (data + size <= buffer || data > buffer + _capacity))
     {
       Memory::move(buffer + size, bufferStart, oldSize);
       Memory::copy(buffer, data, size);
